@@ -128,17 +128,30 @@ def gen_scenario(seed, index):
             mids.append(m)
     ops.append({"op": "root", "name": r, "mids": mids, "named": rng.random() < 0.6})
     n = rng.randint(3, 15)
+    follow = []
     tries = 0
     while len(ops) < n and tries < 100:
         tries += 1
         names = list(model.order)
         k = weighted(rng, [("copy", 14), ("variant", 14), ("mix", 6), ("addmix", 7), ("reg", 18),
                            ("unreg", 9), ("call", 26), ("root", 5)])
+        forced = None
+        if follow:
+            # what tends to expose a propagation / locking gap: right after a late add_mixins, change
+            # the new parent (or an ancestor of it) and look at a descendant of the node
+            forced = follow.pop(0)
+            k = forced[0]
         if k == "root" and len(names) < 6:
             nm = fresh_name()
             model.add(nm, [], False)
             mids = []
+            taken = set()
+            if rng.random() < 0.7:  # mostly disjoint from the other nodes, so that it can be mixed in later
+                for x in names:
+                    taken |= set(model.effective(x))
             for m in rng.sample(pool, rng.randint(1, min(3, len(pool)))):
+                if sigkey(spec, m) in taken:
+                    continue
                 if can_register(nm, m):
                     model.nodes[nm]["own"][sigkey(spec, m)] = [m, None]
                     mids.append(m)
@@ -171,6 +184,11 @@ def gen_scenario(seed, index):
                         "named": rng.random() < 0.6})
         elif k == "addmix" and len(names) >= 2:
             node, par = rng.sample(names, 2)
+            live = [x for x in names if model.routes_kinds(x) == {False}]  # used through linkback only
+            if live and rng.random() < 0.5:
+                node = rng.choice(live)
+                others = [x for x in names if x != node]
+                par = rng.choice([x for x in others if not model.nodes[x]["used"]] or others)
             # no cycles, disjoint keys with what the node already has from parents
             def ancestors(x):
                 out = set()
@@ -186,6 +204,11 @@ def gen_scenario(seed, index):
             if set(inherited) & set(model.effective(par)):
                 continue
             ops.append({"op": "addmix", "node": node, "parent": par})
+            if rng.random() < 0.6:
+                anc_par = sorted(ancestors(par) | {par})
+                follow = [(rng.choice(["reg", "reg", "unreg"]), rng.choice(anc_par))]
+                desc = [x for x in names if node in ancestors(x) | {x}]
+                follow.append(("call", rng.choice(desc)))
             # model effect decided at execution time (may be refused); assume verdict
             v = model.verdict(node)
             if v != "must_refuse":
@@ -195,7 +218,7 @@ def gen_scenario(seed, index):
                     break
                 model.nodes[node]["parents"].append(par)
         elif k == "reg":
-            node = rng.choice(names)
+            node = forced[1] if forced else rng.choice(names)
             m = rng.choice(pool)
             if not can_register(node, m):
                 continue
@@ -206,7 +229,7 @@ def gen_scenario(seed, index):
             if v == "must_succeed":
                 model.nodes[node]["own"][sigkey(spec, m)] = [m, None]
         elif k == "unreg":
-            node = rng.choice(names)
+            node = forced[1] if forced else rng.choice(names)
             own = model.nodes[node]["own"]
             cand = [v[0] for v in own.values()] or [rng.choice(pool)]
             m = rng.choice(cand)
@@ -218,7 +241,7 @@ def gen_scenario(seed, index):
                 for kk in [kk for kk, vv in own.items() if vv[0] == m]:
                     del own[kk]
         elif k == "call":
-            node = rng.choice(names)
+            node = forced[1] if forced else rng.choice(names)
             c = rng.choice(corpus)
             ops.append({"op": "call", "node": node, "c": c})
             model.nodes[node]["used"] = True
